@@ -1500,7 +1500,10 @@ public:
             // locations because those writes wrote values of
             // different types.
 
-            new_rgn_info.init_val() = boolean_value::get_false();
+            // The store below overwrites the region as if nothing had
+            // been written before; afterwards the region is (may-)
+            // initialized like after any other store.
+            is_uninitialized_rgn = true;
             new_rgn_info.type_val() = variable_type::mk_region(val.get_type());
 
             m_ghost_var_man.forget(rgn, m_base_dom);
